@@ -28,9 +28,16 @@ def dedupe(rows, keyf):
 
 def nonconst_conds(row):
     out = []
+    after_dbg = False
     for (e, lab, n) in row.conds:
+        sp = (getattr(n, "term", None) or {}).get("sp") or {}
+        dbg = any(m.split("::")[-1] in ("debug_assert", "debug_assert_eq", "debug_assert_ne") for m in sp.get("m", []))
         if ir.const_value(e) is not None:
+            after_dbg = after_dbg or dbg        # `if cfg!(debug_assertions)` of a debug assertion: its test comes next
             continue
+        if dbg or after_dbg:
+            after_dbg = False
+            continue        # the test of a debug assertion: on the edge that goes on it holds and decides nothing
         out.append((e, lab))
     return out
 
